@@ -4,6 +4,7 @@ bounded FIFO, for every value of the ghost counter; honest push/pop pairs advanc
 -/
 import Golib.Model.C10Spec
 import Golib.Proof.C10Sync
+import Golib.Proof.C10Wait
 
 set_option linter.unusedSimpArgs false
 set_option linter.unusedVariables false
@@ -11,8 +12,8 @@ set_option linter.unusedVariables false
 namespace Golib.C10
 open Golib.Proto
 
-theorem sync_step_refines {c e : Nat} (g : Geom c e) (H : Nat) (q : List Int) (hq : q.length ≤ c)
-    (op : SOp) :
+theorem sync_step_refines_basic {c e : Nat} (g : Geom c e) (H : Nat) (q : List Int) (hq : q.length ≤ c)
+    (op : SOp) (hb : ∀ v w, op ≠ .pushW v w) (hb' : ∀ w, op ≠ .popW w) :
     ∃ H' q', (mkSync c H q).step op = some (mkSync c H' q', ((⟨q, c⟩ : BQ).step op.toOp).2) ∧
       ((⟨q, c⟩ : BQ).step op.toOp).1 = ⟨q', c⟩ ∧ q'.length ≤ c := by
   obtain ⟨hlen, hemp, hfull⟩ := len_mk g H q hq
@@ -63,6 +64,28 @@ theorem sync_step_refines {c e : Nat} (g : Geom c e) (H : Nat) (q : List Int) (h
         | true => exact absurd (hfull.mp h) hf
       have : ¬ ((q.length : Int) = (c : Int)) := by omega
       rw [h1]; simp only [this, decide_false]
+  | pushW v w => exact absurd rfl (hb v w)
+  | popW w => exact absurd rfl (hb' w)
+
+/-- Every operation, waits with `maxWait ≥ 0` included (they print and do what the plain
+operation does: `step_pushW`, `step_popW`). -/
+theorem sync_step_refines {c e : Nat} (g : Geom c e) (H : Nat) (q : List Int) (hq : q.length ≤ c)
+    (op : SOp) :
+    ∃ H' q', (mkSync c H q).step op = some (mkSync c H' q', ((⟨q, c⟩ : BQ).step op.toOp).2) ∧
+      ((⟨q, c⟩ : BQ).step op.toOp).1 = ⟨q', c⟩ ∧ q'.length ≤ c := by
+  cases op with
+  | pushW v w =>
+    rw [step_pushW]
+    exact sync_step_refines_basic g H q hq (.push v) (by intro _ _ h; cases h) (by intro _ h; cases h)
+  | popW w =>
+    rw [step_popW]
+    exact sync_step_refines_basic g H q hq .pop (by intro _ _ h; cases h) (by intro _ h; cases h)
+  | push v => exact sync_step_refines_basic g H q hq _ (by intro _ _ h; cases h) (by intro _ h; cases h)
+  | pop => exact sync_step_refines_basic g H q hq _ (by intro _ _ h; cases h) (by intro _ h; cases h)
+  | len => exact sync_step_refines_basic g H q hq _ (by intro _ _ h; cases h) (by intro _ h; cases h)
+  | cap => exact sync_step_refines_basic g H q hq _ (by intro _ _ h; cases h) (by intro _ h; cases h)
+  | isEmpty => exact sync_step_refines_basic g H q hq _ (by intro _ _ h; cases h) (by intro _ h; cases h)
+  | isFull => exact sync_step_refines_basic g H q hq _ (by intro _ _ h; cases h) (by intro _ h; cases h)
 
 theorem sync_run_refines {c e : Nat} (g : Geom c e) (ops : List SOp) :
     ∀ (H : Nat) (q : List Int), q.length ≤ c →
